@@ -136,3 +136,120 @@ def jobs(tier):
     if tier == "thorough":
         out += muldiv_jobs(8, tier)
     return out
+
+
+# ---- double-word step functions (modular-relative treatment of multiply / divide, DESIGN section 5 C19) ----------------------
+def step_jobs(tier):
+    out = []
+    TY = {8: ('unsigned char', 'unsigned_char'), 16: ('unsigned short', 'unsigned_short'), 32: ('unsigned int', 'unsigned_int'), 64: ('unsigned long long', 'unsigned_long_long')}
+    # (word bits, variant): variant 64 is the hand-rolled half-word algorithm, whose text is width-generic and is enforced at reduced word sizes
+    # reduced instances of the half-word text must use a word type that is not subject to integer promotion (unsigned int): with 8/16-bit
+    # words `~Number_T{0} >> shift_` is evaluated in int and the mask comes out wrong, so those instances are not the 64-bit algorithm
+    combos = [(8, 8), (32, 64)] if tier == 'quick' else [(8, 8), (16, 16), (32, 32), (32, 64)]
+    for w, var in combos:
+        wt, wts = TY[w]
+        pre = 'typedef unsigned __CPROVER_bitvector[%d] dw_t;\n#define QW %d\n' % (2 * w + 2, w)
+        npre = 'typedef unsigned __int128 dw_t;\n#define QW %d\n' % w
+        fn = 'DoubleSize__%s_%d_Multiply' % (wts, var)
+        q = 'Qentem::DoubleSize<%s, %d>::Multiply' % (wt, var)
+        out.append(dict(name='DoubleSize<%d-bit,%s>.Multiply' % (w, 'native' if var != 64 else 'half-word'), unit=UNIT, fn=fn, roots=[q],
+                        specs={fn: dict(refs=['number'], ensures=['((((dw_t)__CPROVER_return_value) << QW) | (dw_t)*number) == (dw_t)__CPROVER_old(*number) * (dw_t)multiplier'],
+                                        assigns=['*number'])},
+                        pre=pre, native_pre=npre, native_skip_ensures=(w > 32), solver='cadical', timeout=900, objbits=8, must_have=['postcondition'], cex_K=1,
+                        clause='double-word multiply step returns exactly (high, low) of the full product'))
+        fn = 'DoubleSize__%s_%d_Divide' % (wts, var)
+        q = 'Qentem::DoubleSize<%s, %d>::Divide' % (wt, var)
+        shift_req = []
+        params = 'initial_shift' if var == 64 else 'qx_unnamed0'
+        if var == 64:
+            # the caller passes (width-1) - index of the top set bit of the divisor
+            shift_req = ['initial_shift < QW', '((divisor << initial_shift) >> (QW - 1)) == 1', '((dw_t)divisor << initial_shift) < (((dw_t)1) << QW)']
+        N = '(((dw_t)__CPROVER_old(*dividend_high) << QW) | (dw_t)__CPROVER_old(*dividend_low))'
+        out.append(dict(name='DoubleSize<%d-bit,%s>.Divide' % (w, 'native' if var != 64 else 'half-word'), unit=UNIT, fn=fn, roots=[q],
+                        specs={fn: dict(refs=['dividend_high', 'dividend_low'], requires=['divisor != 0', '*dividend_high < divisor'] + shift_req,
+                                        ensures=['*dividend_high < divisor', '(dw_t)*dividend_low * (dw_t)divisor + (dw_t)*dividend_high == %s' % N],
+                                        assigns=['*dividend_high', '*dividend_low'])},
+                        pre=pre, native_pre=npre, native_skip_ensures=(w > 32), solver='cadical', timeout=900, objbits=8, must_have=['postcondition'], cex_K=1,
+                        clause='double-word divide step returns the exact quotient word and remainder of (high:low) / divisor'))
+    return out
+
+
+_jobs3 = jobs
+
+
+def jobs(tier):
+    return _jobs3(tier) + step_jobs(tier)
+
+
+# ---- BigInt::Multiply / Divide relative to the step contracts (step results recorded in ghost scalars by call order) -----------
+def rel_jobs(w):
+    out = []
+    wt = WORDS[w][0]
+    wts = wt.replace(' ', '_')
+    C, Q = cls(w), qcls(w)
+    S = self_obj(w)
+    MUL = 'DoubleSize__%s_%d_Multiply' % (wts, w)
+    DIV = 'DoubleSize__%s_%d_Divide' % (wts, w)
+    QMUL = 'Qentem::DoubleSize<%s, %d>::Multiply' % (wt, w)
+    ghosts = [('unsigned int', 'g_cnt')] + [(wt, 'g_hi%d' % c) for c in range(4)] + [(wt, 'g_lo%d' % c) for c in range(4)] + [(wt, 'g_in%d' % c) for c in range(4)] + \
+             [(wt, 'g_out%d' % c) for c in range(4)]
+    gnames = ['g_cnt'] + ['g_%s%d' % (k, c) for k in ('hi', 'lo', 'in', 'out') for c in range(4)]
+    pre_ = pre(w) + 'typedef unsigned __CPROVER_bitvector[%d] dw_t;\n' % (2 * w + 2)
+    rec = lambda g, val: ['(__CPROVER_old(g_cnt) == %d) ==> %s%d == %s' % (c, g, c, val) for c in range(4)] + \
+                         ['(__CPROVER_old(g_cnt) != %d) ==> %s%d == __CPROVER_old(%s%d)' % (c, g, c, g, c) for c in range(4)]
+    mul_callee = dict(requires=['__CPROVER_w_ok(number, sizeof(*number))', 'g_cnt < 4'], assigns=['*number'] + gnames,
+                      ensures=['g_cnt == __CPROVER_old(g_cnt) + 1',
+                               '((((dw_t)__CPROVER_return_value) << QW) | (dw_t)*number) == (dw_t)__CPROVER_old(*number) * (dw_t)multiplier'] +
+                      rec('g_hi', '__CPROVER_return_value') + rec('g_lo', '*number') + rec('g_in', '__CPROVER_old(*number)') + rec('g_out', '__CPROVER_old(g_out%d)'.replace('%d', '0')))
+    # g_out is unused by Multiply; keep it unchanged
+    mul_callee['ensures'] = [e for e in mul_callee['ensures'] if 'g_out' not in e] + ['g_out%d == __CPROVER_old(g_out%d)' % (c, c) for c in range(4)]
+    IDX = '__CPROVER_old(self->index_)'
+    prod = lambda c: '((((bv_t)g_hi%d) << QW) | (bv_t)g_lo%d)' % (c, c)
+    summ = ' + '.join('((%d <= %s) ? (%s << ((%s - %d) * QW)) : (bv_t)0)' % (c, IDX, prod(c), IDX, c) for c in range(4))
+    fits = '(%s < 3 || g_hi0 == 0)' % IDX
+    fn = C + '_Multiply'
+    out.append(mk(w, 'Multiply.relative', Q + '::Multiply', fn,
+                  dict(requires=[S, wf(), 'g_cnt == 0'],
+                       ensures=['g_cnt == %s + 1' % IDX,
+                                '((%s) < LIMIT) ==> (%s == (%s))' % (summ, val(), summ)] +
+                               ['(%s == %d) ==> g_in%d == __CPROVER_old(self->storage_[%d])' % (IDX, i, c, i - c) for i in range(4) for c in range(i + 1)] +
+                               ['((%s) < LIMIT) ==> %s' % (summ, wf())],
+                       assigns=frame() + gnames),
+                  'multiplication applies the double-word step to every word from the top down and adds each high word one position up (value = sum of recorded products)',
+                  replace=[MUL], timeout=1200, split=6, ghosts=ghosts, pre=pre_))
+    out[-1]['specs'][MUL] = mul_callee
+    # ---- Divide: the step is applied from the word below the top down to word 0 with the remainder chained
+    div_callee = dict(
+        requires=['__CPROVER_w_ok(dividend_high, sizeof(*dividend_high))', '__CPROVER_w_ok(dividend_low, sizeof(*dividend_low))', 'g_cnt < 3',
+                  'divisor != 0', '*dividend_high < divisor'] + (['initial_shift < QW', '((divisor << initial_shift) >> (QW - 1)) == 1'] if w == 64 else []),
+        assigns=['*dividend_high', '*dividend_low'] + gnames,
+        ensures=['g_cnt == __CPROVER_old(g_cnt) + 1', '*dividend_high < divisor',
+                 # meaning of the step (enforced against the real step function in the DoubleSize jobs)
+                 '(dw_t)*dividend_low * (dw_t)divisor + (dw_t)*dividend_high == ((((dw_t)__CPROVER_old(*dividend_high)) << QW) | (dw_t)__CPROVER_old(*dividend_low))'] +
+        rec('g_hi', '__CPROVER_old(*dividend_high)') + rec('g_in', '__CPROVER_old(*dividend_low)') + rec('g_lo', '*dividend_low') + rec('g_out', '*dividend_high'))
+    fnd = C + '_Divide'
+    O = lambda k: '__CPROVER_old(self->storage_[%d])' % k
+    ens = ['__CPROVER_return_value < divisor', 'g_cnt == %s' % IDX, wf()]
+    for i in range(4):
+        ens.append('(%s == %d) ==> self->storage_[%d] == %s / divisor' % (IDX, i, i, O(i)))
+        for c in range(i):
+            k = i - 1 - c
+            ens.append('(%s == %d) ==> (g_in%d == %s && self->storage_[%d] == g_lo%d && g_hi%d == %s)' % (
+                IDX, i, c, O(k), k, c, c, ('%s %% divisor' % O(i)) if c == 0 else 'g_out%d' % (c - 1)))
+        ens.append('(%s == %d) ==> __CPROVER_return_value == %s' % (IDX, i, ('%s %% divisor' % O(0)) if i == 0 else 'g_out%d' % (i - 1)))
+    out.append(mk(w, 'Divide.relative', Q + '::Divide', fnd,
+                  dict(requires=[S, wf(), 'divisor != 0', 'g_cnt == 0'], ensures=ens, assigns=frame() + gnames),
+                  'division applies the double-word step from the top down with the remainder chained; quotient words, returned remainder and invariant follow the step results',
+                  replace=[DIV], timeout=1200, split=6, ghosts=ghosts, pre=pre_))
+    out[-1]['specs'][DIV] = div_callee
+    return out
+
+
+_jobs4 = jobs
+
+
+def jobs(tier):
+    out = _jobs4(tier)
+    for w in ([64] if tier == 'quick' else [8, 16, 32, 64]):
+        out += rel_jobs(w)
+    return out
